@@ -147,9 +147,10 @@ def decide(pid, tier, units, scratch, run_unit):
               assumptions=assumptions + ['machine arithmetic is bit-precise (CBMC), no mathematical-integer idealisation',
                                          'the lowering of DESIGN.md §2.1 preserves the semantics of the cut text'],
               wall_s=round(wall, 2), violations=len(vio_files))
-    os.makedirs(os.path.join(VERIF, 'evidence'), exist_ok=True)
-    with open(os.path.join(VERIF, 'evidence', pid + '.json'), 'w') as fh:
-        json.dump(ev, fh, indent=1, default=str)
+    if not os.environ.get('VERIF_NO_EVIDENCE'):
+        os.makedirs(os.path.join(VERIF, 'evidence'), exist_ok=True)
+        with open(os.path.join(VERIF, 'evidence', pid + '.json'), 'w') as fh:
+            json.dump(ev, fh, indent=1, default=str)
     print('%s %s: %d units, %d/%d obligations discharged, bounded %d/%d, known-finding obligations %d, %.1fs -> exit %d' % (
         pid, tier, len(results), n_dis, n_obl, n_bounded_ok, n_bounded, n_known_obl, wall, rc))
     return rc
